@@ -20,10 +20,45 @@ package database
 //@ // sender index inside that eon's keyper set (they are inserted only after checkKeyShares accepted the
 //@ // message, or for the keyper's own index).
 //@ ufn dkgSize(Int) Int
+//@ // A-sql-6: the DKG result row, the latest started eon and the keyper list of a keyper config index as
+//@ // functions of the abstract database state (fixed during one call: A-snap)
+//@ ufn dkgHasResult(Int) Bool
+//@ ufn dkgSucceeded(Int) Bool
+//@ ufn eonStarted(Int) Bool
+//@ ufn latestEon(Int) Int
+//@ ufn latestEonActivation(Int) Int
+//@ ufn cfgExists(Int) Bool
+//@ ufn cfgN(Int) Int
+//@ ufn cfgKeyper(Int, Int) Str
+//@ func (*Queries).GetLatestStartedEonByKeyperConfigIndex
+//@   trusted
+//@   requires q != nil
+//@   ensures ret1 == nil ==> (eonStarted(keyperConfigIndex) && ret0.Eon == latestEon(keyperConfigIndex) && ret0.ActivationBlockNumber == latestEonActivation(keyperConfigIndex) && ret0.KeyperConfigIndex == keyperConfigIndex)
+//@   ensures ret1 == sentinel("pgx.ErrNoRows") ==> !eonStarted(keyperConfigIndex)
+//@ func (*Queries).GetBatchConfig
+//@   trusted
+//@   requires q != nil
+//@   ensures ret1 == nil ==> (cfgExists(keyperConfigIndex) && len(ret0.Keypers) == cfgN(keyperConfigIndex) && (forall i :: 0 <= i && i < len(ret0.Keypers) ==> ret0.Keypers[i] == cfgKeyper(keyperConfigIndex, i)))
+//@
+//@ // membership of an encoded address in the keyper list of a config (a defined symbol, so that callers'
+//@ // proofs need not handle the existential)
+//@ ufn memberOfSet(Int, Str) Bool
+//@ axiom forall idx Int, s Str :: memberOfSet(idx, s) <==> (exists i :: 0 <= i && i < cfgN(idx) && cfgKeyper(idx, i) == s)
+//@ // the position of an address in the keyper list of a config, -1/false when absent
+//@ func (*Queries).GetKeyperIndex
+//@   requires q != nil
+//@   ensures ret2 == nil && ret1 ==> (0 <= ret0 && ret0 < cfgN(int32(keyperConfigIndex)) && cfgKeyper(int32(keyperConfigIndex), ret0) == addrHex(addr))
+//@   ensures ret2 == nil && ret1 ==> (forall j :: 0 <= j && j < ret0 ==> cfgKeyper(int32(keyperConfigIndex), j) != addrHex(addr))
+//@   ensures ret2 == nil && !ret1 ==> (ret0 == 0 - 1 && (forall j :: 0 <= j && j < cfgN(int32(keyperConfigIndex)) ==> cfgKeyper(int32(keyperConfigIndex), j) != addrHex(addr)))
+//@   ensures ret2 == nil ==> (ret1 <==> memberOfSet(int32(keyperConfigIndex), addrHex(addr)))
+//@   ensures ret2 != nil ==> !ret1
+//@   invariant forall j :: 0 <= j && j <= rangeindex ==> cfgKeyper(int32(keyperConfigIndex), j) != addrHex(addr)
 //@ func (*Queries).GetDKGResultForKeyperConfigIndex
 //@   trusted
 //@   requires q != nil
 //@   ensures ret1 == nil ==> dkgSizeOfBytes(content(ret0.PureResult)) == dkgSize(keyperConfigIndex)
+//@   ensures ret1 == nil ==> (dkgHasResult(keyperConfigIndex) && ret0.Success == dkgSucceeded(keyperConfigIndex))
+//@   ensures ret1 == sentinel("pgx.ErrNoRows") ==> !dkgHasResult(keyperConfigIndex)
 //@   ensures !errWraps(ret1, sentinel("pgx.ErrNoRows"))
 //@ func (*Queries).SelectDecryptionKeyShares
 //@   trusted
@@ -34,3 +69,10 @@ package database
 //@   requires q != nil && msg != nil && (forall i :: 0 <= i && i < len(msg.Keys) ==> msg.Keys[i] != nil)
 //@ func (*Queries).InsertDecryptionKeySharesMsg
 //@   requires q != nil && msg != nil && (forall i :: 0 <= i && i < len(msg.Shares) ==> msg.Shares[i] != nil)
+//@
+//@ // the DKG result row of an eon (by eon number)
+//@ ufn dkgEonSucceeded(Int) Bool
+//@ func (*Queries).GetDKGResult
+//@   trusted
+//@   requires q != nil
+//@   ensures ret1 == nil ==> ret0.Success == dkgEonSucceeded(eon)
